@@ -521,6 +521,163 @@ func runC14(r *mc.Run) {
 	})
 	r.SectionDone(mc.Section{Name: "policies", Evaluations: int64(done), Exhaustive: done == len(cases),
 		Note: fmt.Sprintf("%d policies x %d quotes", len(cases), len(quotes))})
+	c14SharedTables(r, raw0, quotes[0].raw, func(name string) []byte {
+		for _, q := range quotes {
+			if q.name == name {
+				return q.raw
+			}
+		}
+		return nil
+	})
+}
+
+// c14SharedTables: policy messages built in Go whose lists are windows of ONE table ([][]byte) and whose byte fields
+// are windows of ONE buffer, so that every list / field has spare capacity with live data of a neighbour behind its
+// length. Converting (and validating with the result) must leave the message and the neighbours as they were and
+// mean what the message literally says.
+func c14SharedTables(r *mc.Run, raw0, satisfying []byte, quote func(string) []byte) {
+	mr := raw0[48+136 : 48+184]
+	rt := func(i int) []byte { return append([]byte(nil), raw0[48+328+48*i:48+376+48*i]...) }
+	n := 0
+	for k := 0; k <= 3; k++ { // entries of any_mr_td in front of the four RTMR expectations
+		for order := 0; order < 2; order++ { // 0: any_mr_td first in the table, 1: rtmrs first
+			for mrtd := 0; mrtd < 3; mrtd++ { // mr_td unset / equal / different
+				for missq := 0; missq < 3; missq++ { // judged on: satisfying quote / quote missing rtmr0 / rtmr3
+					id := fmt.Sprintf("shared-table/any_mr_td=%d,order=%d,mr_td=%d,quote=%d", k, order, mrtd, missq)
+					if !r.Want(id) {
+						continue
+					}
+					n++
+					var table [][]byte
+					anyL := [][]byte{}
+					for i := 0; i < k; i++ {
+						e := append([]byte(nil), mr...)
+						if i > 0 {
+							e[i] ^= 0x55
+						}
+						anyL = append(anyL, e)
+					}
+					rts := [][]byte{rt(0), rt(1), rt(2), rt(3)}
+					p := &ccpb.Policy{TdQuoteBodyPolicy: &ccpb.TDQuoteBodyPolicy{}}
+					if order == 0 {
+						table = append(append(table, anyL...), rts...)
+						table = append(table, world.Fill("c14-sentinel", 48))
+						p.TdQuoteBodyPolicy.AnyMrTd, p.TdQuoteBodyPolicy.Rtmrs = table[:k], table[k:k+4]
+					} else {
+						table = append(append(table, rts...), anyL...)
+						table = append(table, world.Fill("c14-sentinel", 48))
+						p.TdQuoteBodyPolicy.Rtmrs, p.TdQuoteBodyPolicy.AnyMrTd = table[:4], table[4:4+k]
+					}
+					switch mrtd {
+					case 1:
+						p.TdQuoteBodyPolicy.MrTd = append([]byte(nil), mr...)
+					case 2:
+						p.TdQuoteBodyPolicy.MrTd = world.Fill("c14-other-mrtd", 48)
+					}
+					before := proto.Clone(p).(*ccpb.Policy)
+					var snap [][]byte
+					for _, e := range table {
+						snap = append(snap, append([]byte(nil), e...))
+					}
+					pol := polOfMsg(before)
+					opts, err := safePolicyToOptions(p)
+					altered := ""
+					same := func(when string) bool {
+						ok := proto.Equal(before, p) && len(table) == len(snap)
+						for i := range snap {
+							ok = ok && i < len(table) && table[i] != nil && bytes.Equal(table[i], snap[i])
+						}
+						if !ok {
+							altered = "+message-altered-by-" + when // recorded; the statement judges the verdict, below
+						}
+						return ok
+					}
+					out := "converts"
+					switch {
+					case world.IsPanic(err):
+						r.Violate("shared-table:panic:"+crashSite(err), id, "PolicyToOptions crashes: "+errStr(err), nil)
+						out = "panic"
+					case err != nil:
+						out = "fails"
+						same("conversion")
+					default:
+						okc := same("conversion")
+						q := satisfying
+						if missq == 1 {
+							q = quote("miss-rtmr0")
+						} else if missq == 2 {
+							q = quote("miss-rtmr3")
+						}
+						verr := safeValidateRaw(q, opts)
+						rp, _ := ref.ParseQuote(q)
+						want := pol.Judge(rp)
+						switch {
+						case world.IsPanic(verr):
+							r.Violate("shared-table:validate-panic:"+crashSite(verr), id, "validation crashes: "+errStr(verr), nil)
+						case want == ref.MustReject && verr == nil:
+							r.Violate("shared-table:meaning:partly-ignored", id, "converted policy accepts a quote the message literally excludes", map[string]any{"policy": fmt.Sprintf("%v", before), "raw_quote_hex": hexs(q)})
+						case want == ref.MustAccept && verr != nil:
+							r.Violate("shared-table:meaning:over-strict", id, "converted policy rejects a quote the message literally admits: "+errStr(verr), map[string]any{"policy": fmt.Sprintf("%v", before), "raw_quote_hex": hexs(q)})
+						}
+						if okc {
+							same("validation")
+						}
+						out += ":" + want.String() + "/" + verdict(verr)
+					}
+					r.Eval(id, true, "shared-table:"+out+altered)
+				}
+			}
+		}
+	}
+	// byte fields as windows of one buffer: field i occupies buf[o_i : o_i+len_i] with capacity up to the buffer's end
+	for variant := 0; variant < 3; variant++ { // all equal / one differing field in the middle / last field differing
+		id := fmt.Sprintf("shared-buffer/variant=%d", variant)
+		if !r.Want(id) {
+			continue
+		}
+		n++
+		var buf []byte
+		type win struct{ off, n int }
+		var wins []win
+		for _, f := range polFields {
+			wins = append(wins, win{len(buf), f.len})
+			buf = append(buf, raw0[f.off:f.off+f.len]...)
+		}
+		buf = append(buf, world.Fill("c14-sentinel", 64)...)
+		p := &ccpb.Policy{}
+		for i, f := range polFields {
+			f.set(p, buf[wins[i].off:wins[i].off+wins[i].n])
+		}
+		switch variant {
+		case 1:
+			buf[wins[len(wins)/2].off+1] ^= 4
+		case 2:
+			buf[wins[len(wins)-1].off] ^= 4
+		}
+		before := proto.Clone(p).(*ccpb.Policy)
+		snap := append([]byte(nil), buf...)
+		pol := polOfMsg(before)
+		opts, err := safePolicyToOptions(p)
+		out := "fails"
+		if world.IsPanic(err) {
+			r.Violate("shared-buffer:panic:"+crashSite(err), id, "PolicyToOptions crashes: "+errStr(err), nil)
+		} else if err == nil {
+			verr := safeValidateRaw(satisfying, opts)
+			rp, _ := ref.ParseQuote(satisfying)
+			want := pol.Judge(rp)
+			if want == ref.MustReject && verr == nil {
+				r.Violate("shared-buffer:meaning:partly-ignored", id, "converted policy accepts a quote the message literally excludes", map[string]any{"policy": fmt.Sprintf("%v", before)})
+			} else if want == ref.MustAccept && verr != nil && !world.IsPanic(verr) {
+				r.Violate("shared-buffer:meaning:over-strict", id, "converted policy rejects a quote the message literally admits: "+errStr(verr), map[string]any{"policy": fmt.Sprintf("%v", before)})
+			}
+			out = "converts:" + want.String() + "/" + verdict(verr)
+		}
+		if !bytes.Equal(buf, snap) || !proto.Equal(before, p) {
+			out += "+message-altered" // recorded; the statement judges the verdict
+		}
+		r.Eval(id, true, "shared-buffer:"+out)
+	}
+	r.SectionDone(mc.Section{Name: "shared-tables", Evaluations: int64(n), Exhaustive: true})
 }
 
 func firstBad(p ref.Policy) string {
